@@ -30,6 +30,9 @@ func (r *c07) wrapNote(what string, cp int) {
 // obs: the result of the op, the observable state (Len, IsEmpty, Front, Slice) and — lock-step with the
 // model (audit item A2) — the ring-buffer bookkeeping head, n, len(vs) read through the overlay hook.
 func (r *c07) obs(res string) string {
+	if blindObs { // second, query-free execution (Stream.Blind)
+		return res
+	}
 	q := r.q
 	head, n, cp := queue.VerifState(q)
 	r.lg.see(r.st, "queue", q.Len())
@@ -356,5 +359,5 @@ func genC07(g *G) {
 }
 
 func init() {
-	register(&Stream{Name: "C07", Gen: genC07, New: func(st *Stats) Runner { return &c07{q: &queue.Queue[int]{}, st: st} }})
+	register(&Stream{Name: "C07", Gen: genC07, Blind: true, New: func(st *Stats) Runner { return &c07{q: &queue.Queue[int]{}, st: st} }})
 }
